@@ -209,7 +209,7 @@ def hyp_C03(ctx, case):
     bad = []
     slots = collections.Counter((e['a'], e['b'], e['da']) for e in ctx.edges)
     if any(v > 1 for v in slots.values()): bad.append('x:unique_slots')
-    if any(e['kind'] == 'w' for e in ctx.edges): bad.append('weak')                       # F11
+    if any(e['kind'] == 'w' for e in ctx.edges): bad.append('weak')                       # F11 (same-time sub-steps exist: the data plane is keyed by the integer time)
     if any(e['init'] and not e['persistent'] for e in ctx.edges): bad.append('init_on_event_source')   # F17
     by_attr = collections.defaultdict(list)
     for e in ctx.edges:
@@ -314,8 +314,14 @@ def P_C03_absolute(ctx, log, case):
             want = due[-1][e['sa']]
             have = got.get(e['da'], {}).get(e['a'] + '.e', 'MISSING')
             if have != want:
-                out.append(f"ABS {sid}@{T}: attribute {e['da']} shows {have!r} from {e['a']}, but the last output of {e['a']} for a step at or before {T} is {want!r} "
-                           f"(produced later in the run: the step did not wait for it)")
+                # a value of a LATER sub-step of the same time (the cache is keyed by the integer time: known finding F11) is
+                # marked differently from a stale or missing one (the step did not wait for its provider)
+                later = [d[e['sa']] for (ts, d) in prod[e['a']] if ts > T and ts[0] == T[0] and e['sa'] in d]
+                if have in later:
+                    out.append(f"ABS-LATER {sid}@{T}: attribute {e['da']} shows {have!r} from {e['a']}, the value of a later sub-step of the same time; the last output at or before {T} is {want!r}")
+                else:
+                    out.append(f"ABS {sid}@{T}: attribute {e['da']} shows {have!r} from {e['a']}, but the last output of {e['a']} for a step at or before {T} is {want!r} "
+                               f"(produced later in the run: the step did not wait for it)")
                 return out
     return out
 
